@@ -39,6 +39,8 @@ pub fn exec(line: &str) -> String {
                 // metadata written by hand: the separator given, left out, or an empty configuration (then the default of
                 // the encoding applies: `/` for default, `.` for v2)
                 let cke = match form { "omit" => format!("{{\"name\":\"{}\"}}", m["enc"]), "empty" => format!("{{\"name\":\"{}\",\"configuration\":{{}}}}", m["enc"]),
+                    // (a KNOWN encoding marked as not needing to be understood is still the array's encoding)
+                    "explicit_mu" => format!("{{\"name\":\"{}\",\"configuration\":{{\"separator\":\"{}\"}},\"must_understand\":false}}", m["enc"], m["sep"]),
                     _ => format!("{{\"name\":\"{}\",\"configuration\":{{\"separator\":\"{}\"}}}}", m["enc"], m["sep"]) };
                 let doc = format!("{{\"zarr_format\":3,\"node_type\":\"array\",\"shape\":{},\"data_type\":\"uint8\",\"chunk_grid\":{{\"name\":\"regular\",\"configuration\":{{\"chunk_shape\":{}}}}},\"chunk_key_encoding\":{},\"fill_value\":0,\"codecs\":[{{\"name\":\"bytes\"}}]}}", dims("4"), dims("1"), cke);
                 let s2 = Arc::new(MemoryStore::new());
@@ -97,8 +99,8 @@ pub fn generate(tier: &str, seed: u64) -> Vec<String> {
         let path = rng.pick(&paths);
         if k % 2 == 0 {
             let enc = if rng.chance(1, 2) { "default" } else { "v2" };
-            let form = *rng.pick(&["explicit", "omit", "empty"]);
-            let sep = if form == "explicit" { if rng.chance(1, 2) { "/" } else { "." } } else if enc == "v2" { "." } else { "/" };
+            let form = *rng.pick(&["explicit", "omit", "empty", "explicit_mu"]);
+            let sep = if form.starts_with("explicit") { if rng.chance(1, 2) { "/" } else { "." } } else if enc == "v2" { "." } else { "/" };
             out.push(format!("c11 key enc={} sep={} path={} idx={} via=v3json form={}", enc, sep, path, nl(&idx), form));
         } else {
             let form = *rng.pick(&["explicit", "explicit", "absent"]);
